@@ -333,6 +333,8 @@ func init() {
 	generators["C10"] = func(cfg runCfg, e *emitter, rng *rand.Rand) {
 		walk(cfg, e, rng, walkOpts{lookups: true, nHist: tierN(cfg, 200, 3000), nBlocks: 8, maxAdd: tierN(cfg, 8, 20),
 			rows: []uint8{0, 4, 63}})
+		// "incl. after Undo": look-ups, hashes and counts after every undo and redo
+		runUndoHistories(cfg, e, rng, tierN(cfg, 80, 1500))
 	}
 	generators["C11"] = func(cfg runCfg, e *emitter, rng *rand.Rand) {
 		walk(cfg, e, rng, walkOpts{updateData: true, nHist: tierN(cfg, 1000, 12000), nBlocks: 11, maxAdd: tierN(cfg, 9, 40),
